@@ -26,6 +26,7 @@ class Index:
         self.canon = {}        # id -> canonical (first) decl id
         self.defn = {}         # canonical id -> node with body
         self.globals = {}      # var id -> node (namespace / static member variables)
+        self.static_canon = set()
         self.lambdas = {}
         for o in objs: self.walk(o, None, False)
         self.consts = {}
@@ -92,6 +93,7 @@ class Index:
         self.funcs[n['id']] = n; self.parent[n['id']] = rec
         c = self.canon.get(n.get('previousDecl'), n.get('previousDecl')) if n.get('previousDecl') else n['id']
         self.canon[n['id']] = c
+        if n.get('storageClass') == 'static': self.static_canon.add(c)
         if any(x.get('kind') == 'CompoundStmt' for x in n.get('inner', [])) or n.get('explicitlyDefaulted'):
             self.defn[c] = n
         self.index_locals(n)
@@ -460,6 +462,7 @@ class Emitter:
             if st.kind == 'string': return self.ex(ks[0])
             if st.kind == 'sv': return f"y_string_from_sv({self.ex(ks[0])})"
         if t.kind == 'vector' and not ks: return f"({c}){{0}}"
+        if t.kind in ('vector', 'string') and len(ks) == 1 and self.cn(self.ct(ks[0]['type'])) == c: return self.ex(ks[0])
         if t.kind == 'rec':
             ctor = e.get('ctorType', {}).get('qualType', '')
             if not ks:   # default / value initialisation: default member initialisers
@@ -634,7 +637,7 @@ class Emitter:
             for i, p in enumerate(params):
                 if i < len(args): al.append(self.arg(args[i], p))
                 else: raise Abort('missing argument')
-            if n['kind'] == 'CXXMethodDecl' and n.get('storageClass') != 'static':
+            if n['kind'] == 'CXXMethodDecl' and n.get('storageClass') != 'static' and cid not in self.ix.static_canon:
                 if obj is None: raise Abort('method without object ' + rd['name'])
                 o, arrow = obj
                 al = [self.ex(o) if arrow else self.addr(o)] + al
@@ -929,7 +932,7 @@ class Emitter:
     def signature(self, cid, n, cname):
         rec = self.ix.parent.get(n['id'])
         params = []
-        if n['kind'] == 'CXXMethodDecl' and n.get('storageClass') != 'static' and rec is not None:
+        if n['kind'] == 'CXXMethodDecl' and n.get('storageClass') != 'static' and cid not in self.ix.static_canon and rec is not None:
             params.append(f"{rec['name']}* self")
         for p in n.get('inner', []):
             if p.get('kind') == 'ParmVarDecl':
